@@ -52,6 +52,7 @@ class Definition:
         self.fnum = None
         self.nested_factory = {}  # num -> class created by create_nested_group
         self.ctor_groups = {}     # num -> class inserted by the deep constructor
+        self.elem_groups = None   # num -> class inserted by create_group(deepctor) of a group class (None: no such function seen)
 
 
 class GenModel:
@@ -121,6 +122,7 @@ class GenModel:
         self.admin = {}
         self.factories = {}
         self.ctor_groups = {}
+        self.elem_groups = {}      # group class -> {num: class} registered by create_group(deepctor)
         for f in cl.functions:
             if f.q.endswith('::is_admin'):
                 rets = [n for n in f.all_nodes() if n.k == 'ReturnStmt']
@@ -143,7 +145,7 @@ class GenModel:
                             break
                     m[key] = cls
                 self.factories[f.rec] = m
-            if f.kind == 'ctor' and f.rec in self.records:
+            if (f.kind == 'ctor' or f.q.endswith('::create_group')) and f.rec in self.records:
                 m = {}
                 for nw in [n for n in f.all_nodes() if n.k == 'CXXNewExpr']:
                     cls = f.tu.types[nw.r['alloc']].get('rec') or f.tu.types[nw.r['alloc']]['c']
@@ -160,8 +162,10 @@ class GenModel:
                                 key = ints[0]
                         p = p.parent
                     m[key] = cls
-                if m:
+                if m and f.kind == 'ctor':
                     self.ctor_groups[f.rec] = m
+                elif f.kind != 'ctor':
+                    self.elem_groups[f.rec] = m
         # ---- message table
         self.msgtable = []          # (msgtype, class, name)
         for v in cl.vars:
@@ -248,6 +252,7 @@ class GenModel:
         d.fnum = self.fnums.get(cls)
         d.nested_factory = self.factories.get(cls, {})
         d.ctor_groups = self.ctor_groups.get(cls, {})
+        d.elem_groups = self.elem_groups.get(cls)
         for q, r in self.records.items():
             if q.startswith(cls + '::') and '::' not in q[len(cls) + 2:] and any(b.get('q') == 'FIX8::GroupBase' for b in r['bases']):
                 g = self.definition(q)
